@@ -100,6 +100,19 @@ theorem picker_rules :
     rrModulus = ["uint64(len(p0.wTargets))"] ∧ rrIndexed = ["p0.wTargets"] ∧ rrAdds = ["&p0.total, 1"] ∧
     rndEvents = ["return p0.wTargets[randIntn(len(p0.wTargets))]"] := by decide +kernel
 
+/-- Wiring that no stream drives (`main()` is not run): every lookup the proxies perform — `Table.Lookup` for
+HTTP and gRPC, `Table.LookupHost` for TCP and TCP+SNI — is handed `route.Picker[<cfg>.Proxy.Strategy]`, the
+map has exactly the keys `rnd` and `rr` (bound to the functions `picker_rules` is about), and the configuration
+refuses every other strategy: `proxy.strategy=rr` is the round-robin picker the theorems describe, on every
+entry point. -/
+theorem picker_wiring :
+    lookupPickerArgs.length ≥ 4 ∧
+    lookupPickerArgs.all (fun a => (a.startsWith "Lookup <- route.Picker[" || a.startsWith "LookupHost <- route.Picker[") &&
+      a.endsWith ".Proxy.Strategy]") = true ∧
+    lookupPickerArgs.any (·.startsWith "LookupHost") = true ∧
+    pickerKeys = ["rnd", "rr"] ∧
+    strategyChecks = ["cfg.Proxy.Strategy != \"rr\" && cfg.Proxy.Strategy != \"rnd\""] := by decide +kernel
+
 /-- `Table.lookup`: no target → nil, one target → that target, else the picker -/
 theorem lookup_rules :
     lookupShortcuts.any (·.endsWith "n := len(r.Targets)") = true ∧
